@@ -861,6 +861,24 @@ func (in *Interp) decide(alts []*smt.Term, kind string) int {
 	if !in.live {
 		panic("decide: fresh decision while not live")
 	}
+	if pin := in.cfg.PinDecisions; pin != nil {
+		// pinned re-execution (replay of a recorded counterexample): take the recorded alternative, explore nothing else
+		k := 0
+		if pos < len(pin) {
+			k = pin[pos]
+		}
+		if k < 0 || k >= n {
+			panic(inconclusive{fmt.Sprintf("pinned decision %d out of range at %s", k, kind)})
+		}
+		if r := in.sol.Check(alts[k]); r == smt.Unsat {
+			panic(pathAbort{"pinned alternative infeasible at " + kind})
+		}
+		in.sol.Push()
+		in.sol.Assert(alts[k])
+		in.pc = append(in.pc, alts[k])
+		in.log = append(in.log, decision{N: n, Chosen: k, Pushes: true, Kind: kind})
+		return k
+	}
 	// fresh decision: feasibility of each alternative
 	var feas []int
 	complementary := kind == "if" && n == 2
@@ -939,6 +957,18 @@ func (in *Interp) decideN(n int, kind string) int {
 		return k
 	}
 	in.goLive()
+	if pin := in.cfg.PinDecisions; pin != nil {
+		k := 0
+		if pos < len(pin) {
+			k = pin[pos]
+		}
+		if k < 0 || k >= n {
+			panic(inconclusive{fmt.Sprintf("pinned decision %d out of range at %s", k, kind)})
+		}
+		in.sol.Push()
+		in.log = append(in.log, decision{N: n, Chosen: k, Kind: kind, Pushes: true})
+		return k
+	}
 	for alt := n - 1; alt >= 1; alt-- {
 		p := make([]decision, pos+1)
 		copy(p, in.log)
